@@ -710,3 +710,124 @@ pub fn run_accaddr(tokens: &[&str]) -> String {
         Err(e) => format!("{a} E:{}", show_kind(e.kind())),
     }
 }
+
+// ---------------------------------------------------------------------------------------------
+// SURVIVE <tcp|rtu> <end> <plan>   end = e:<Kind> (a later connection's setup fails: `serve` returns that error)
+//                                       | r (a later connection is rejected: `serve` keeps listening)
+//                                  plan = connections separated by '|', each `<first request hex>/<second request hex>/<svc>/<svc>`
+//                                         (the two service tokens are for the model; here the RuleService answers)
+//                                         (WriteSingleRegister frames, which the RuleService echoes)
+// The connections of the plan are established and exchange their first request with the RuleService; then one more
+// connection arrives whose setup ends as <end>; after the accept loop has dealt with it (for e:<Kind>: after
+// `serve` has returned), every established connection sends its second request.  A connection that is served
+// independently of the others still gets its reply (the connection tasks do not belong to the accept loop).
+// output: `serve=<E:Kind|LISTENING> | <per connection: first=<hex> second=<hex>>`
+// ---------------------------------------------------------------------------------------------
+pub fn run_survive(tokens: &[&str]) -> String {
+    let [proto, end, plan] = tokens else {
+        return "ERR survive".into();
+    };
+    let plan: Vec<(Vec<u8>, Vec<u8>)> = plan
+        .split('|')
+        .filter_map(|c| {
+            let mut it = c.split('/');
+            Some((unhex(it.next()?)?, unhex(it.next()?)?))
+        })
+        .collect();
+    let n = plan.len();
+    let rt = tokio::runtime::Builder::new_multi_thread().worker_threads(2).enable_all().build().unwrap();
+    let proto = proto.to_string();
+    let end = end.to_string();
+    rt.block_on(async {
+        let listener = tokio::net::TcpListener::bind("127.0.0.1:0").await.unwrap();
+        let addr = listener.local_addr().unwrap();
+        let setups = Arc::new(std::sync::atomic::AtomicUsize::new(0));
+        let (s2, end2, proto2) = (setups.clone(), end.clone(), proto.clone());
+        let server = tokio::spawn(async move {
+            let fail_at = n;
+            let mk = move |i: usize| -> io::Result<bool> {
+                if i < fail_at {
+                    return Ok(true);
+                }
+                if let Some(k) = end2.strip_prefix("e:") {
+                    return Err(io::Error::new(parse_kind(k).unwrap_or(io::ErrorKind::Other), "scripted setup failure"));
+                }
+                Ok(false)
+            };
+            if proto2 == "tcp" {
+                let on_connected = |stream, a| {
+                    let i = s2.fetch_add(1, std::sync::atomic::Ordering::SeqCst);
+                    let d = mk(i);
+                    async move {
+                        match d {
+                            Ok(true) => tokio_modbus::server::tcp::accept_tcp_connection(stream, a, |x| Ok(Some(RuleService { _addr: x }))),
+                            Ok(false) => Ok(None),
+                            Err(e) => Err(e),
+                        }
+                    }
+                };
+                tokio_modbus::server::tcp::Server::new(listener).serve(&on_connected, |_e| {}).await
+            } else {
+                let on_connected = |stream, a| {
+                    let i = s2.fetch_add(1, std::sync::atomic::Ordering::SeqCst);
+                    let d = mk(i);
+                    async move {
+                        match d {
+                            Ok(true) => tokio_modbus::server::rtu_over_tcp::accept_tcp_connection(stream, a, |x| Ok(Some(RuleService { _addr: x }))),
+                            Ok(false) => Ok(None),
+                            Err(e) => Err(e),
+                        }
+                    }
+                };
+                tokio_modbus::server::rtu_over_tcp::Server::new(listener).serve(&on_connected, |_e| {}).await
+            }
+        });
+        async fn exchange(s: &mut tokio::net::TcpStream, f: &[u8]) -> Vec<u8> {
+            if s.write_all(f).await.is_err() {
+                return vec![];
+            }
+            let mut got = vec![];
+            let mut tmp = [0u8; 512];
+            while got.len() < f.len() {
+                match tokio::time::timeout(crate::watchdog(), s.read(&mut tmp)).await {
+                    Ok(Ok(0)) | Ok(Err(_)) | Err(_) => break,
+                    Ok(Ok(m)) => got.extend_from_slice(&tmp[..m]),
+                }
+            }
+            got
+        }
+        let mut conns = vec![];
+        let mut firsts = vec![];
+        for k in 0..n {
+            let mut s = tokio::net::TcpStream::connect(addr).await.unwrap();
+            firsts.push(exchange(&mut s, &plan[k].0).await);
+            conns.push(s);
+        }
+        // the connection whose setup fails / is rejected
+        let extra = tokio::net::TcpStream::connect(addr).await.unwrap();
+        let t0 = Instant::now();
+        let mut server = server;
+        let serve_end = if end.starts_with("e:") {
+            match tokio::time::timeout(crate::watchdog(), &mut server).await {
+                Ok(Ok(Err(e))) => format!("E:{}", show_kind(e.kind())),
+                Ok(Ok(Ok(()))) => "OK".to_string(),
+                Ok(Err(_)) => "PANIC".to_string(),
+                Err(_) => "LISTENING".to_string(),
+            }
+        } else {
+            while setups.load(std::sync::atomic::Ordering::SeqCst) <= n && t0.elapsed() < crate::watchdog() {
+                tokio::time::sleep(Duration::from_millis(2)).await;
+            }
+            tokio::time::sleep(Duration::from_millis(20)).await;
+            if server.is_finished() { "ENDED".to_string() } else { "LISTENING".to_string() }
+        };
+        let mut parts = vec![];
+        for (k, mut s) in conns.into_iter().enumerate() {
+            let second = exchange(&mut s, &plan[k].1).await;
+            parts.push(format!("first={} second={}", hex(&firsts[k]), hex(&second)));
+        }
+        drop(extra);
+        server.abort();
+        format!("serve={} | {}", serve_end, parts.join(" | "))
+    })
+}
